@@ -339,6 +339,24 @@ theorem C14_extensions_noop_without_handler (hs : String → Bool) (c : ExtCall)
     (h : hs (Ext.labelOf c) = false) : Ext.call (.python hs) c = ⟨true, false, true⟩ := by
   cases c <;> simp_all [Ext.call, Ext.handler?, Ext.provider?, Ext.labelOf]
 
+/-- `take_picture()` without a mobility handler (always the case outside the python simulator) is a
+    no-op however often it is called and whatever the callers did to the lists they were handed
+    before (`al` is arbitrary): the list handed out is empty, it is a list of its own, and the
+    earlier ones are left as they are. -/
+theorem C14_picture_noop_fresh (sees : List Nat) (al : Ext.Album) :
+    (Ext.takePicture .other sees al).2[(Ext.takePicture .other sees al).1]? = some [] ∧
+    (Ext.takePicture .other sees al).1 = al.length ∧
+    ∀ i, i < al.length → (Ext.takePicture .other sees al).2[i]? = al[i]? := by
+  refine ⟨?_, rfl, fun i hi => ?_⟩
+  · simp [Ext.takePicture, Ext.handler?, Ext.provider?]
+  · simp [Ext.takePicture, List.getElem?_append_left hi]
+
+/-- inside the python simulator two pictures are two lists as well -/
+theorem C14_picture_fresh_in_python (hs : String → Bool) (sees : List Nat) (al : Ext.Album) :
+    ∀ i, i < al.length → (Ext.takePicture (.python hs) sees al).2[i]? = al[i]? := by
+  intro i hi
+  simp [Ext.takePicture, List.getElem?_append_left hi]
+
 /-! ### D. finding F14b — `cancel_timer` under interop, model of the real behaviour
 
   FULL statement of part A, without the guard "callbacks return normally":
@@ -454,6 +472,61 @@ theorem C14_wrapper_equivalence_among_instances (P : LProto S σ) (ids : Nat →
   rw [hP.2.2.2, hP.2.2.1, hI.1, hk]
   exact C14_wrapper_equivalence P (ids k) acc (stepsOf k stepsP)
 
+/-! ### F. protocols built from plugins: handlers registered with the instance's dispatcher
+
+  `create_dispatcher(protocol)` replaces the callback methods of the protocol INSTANCE by a chain
+  (registered handlers, newest first, then the protocol's own method; INTERRUPT ends the chain of a
+  timer / packet / telemetry callback) — usually from `initialize()`, i.e. after the wrapper has
+  instantiated the protocol.  A wrapper calls `self.protocol.handle_x(...)`: it runs whatever the
+  instance's method is at that moment, so to both wrappers the plugged protocol is just another
+  protocol (`XProto.plugged`), and everything above holds for it. -/
+
+/-- part A for plugged protocols: whatever handlers are plugged in and whenever (`on`), each interop
+    callback returns exactly what the handlers it reached and the protocol's own method issued during
+    it, in order, and nothing is left pending — provided none of them lets an exception escape. -/
+theorem C14_plugged_returns_exactly (P : XProto S σ) (on : σ → Bool) (chain : List (Stage S σ))
+    (hP : NeverRaisesP P) (hc : ∀ h ∈ chain, ∀ s n t cb, NeverRaises' (h.react s n t cb))
+    (id : NodeId) (steps : List (Int × Callback S)) :
+    (∀ r ∈ (irun (P.plugged on chain) (IW.init (P.plugged on chain) id) steps).2, r.ret = some (issued r.transcript)) ∧
+    (irun (P.plugged on chain) (IW.init (P.plugged on chain) id) steps).1.prov.consequences = [] := by
+  have hQ : NeverRaisesP (P.plugged on chain) := by
+    intro s n t cb
+    simp only [XProto.plugged]
+    split
+    · refine neverRaises_chainProg _ _ _ (fun s' => hP s' n t cb) (fun h hh s' => ?_) s
+      obtain ⟨g, hg, rfl⟩ := List.mem_map.mp hh
+      exact hc g hg s' n t cb
+    · exact hP s n t cb
+  have hret := irun_all_return _ hQ (IW.init (P.plugged on chain) id) steps
+  exact ⟨C14_returns_exactly _ _ rfl steps hret, (C14_nothing_left_over _ _ rfl steps hret).1⟩
+
+/-- part B for plugged protocols, acceptance-independent handlers: an acceptance-independent
+    protocol with acceptance-independent handlers plugged in front of its callbacks (answers
+    CONTINUE / INTERRUPT included) performs the same actions callback by callback under both
+    wrappers, and python forwards what interop returns — whatever the python handlers refuse. -/
+theorem C14_plugged_wrapper_equivalence (P : LProto S σ) (on : σ → Bool) (chain : List (LStage S σ))
+    (id : NodeId) (acc : PProv S → Act S → Bool) (steps : List (Int × Callback S)) :
+    let Q := P.toX.plugged on (chain.map LStage.toStage)
+    let py := prun acc Q (PW.init Q id) steps
+    let io := irun Q (IW.init Q id) steps
+    py.1.prov.log.filterMap fwdConsequence = (returnedAll io.2).filter (fun c => !isTrack c) ∧
+    py.2.map (fun tr => tr.map Prod.fst) = io.2.map (fun r => r.transcript.map Prod.fst) := by
+  intro Q
+  have hQ : Q = (P.plugged on chain).toX := (plugged_toX P on chain).symm
+  rw [hQ]
+  exact C14_wrapper_equivalence (P.plugged on chain) id acc steps
+
+/-- part B for plugged protocols, any handlers: when neither environment refuses anything and the
+    callbacks return, the transcripts (hence the handlers reached) are the same callback by callback -/
+theorem C14_plugged_wrapper_equivalence_nothing_refused (P : XProto S σ) (on : σ → Bool) (chain : List (Stage S σ))
+    (id : NodeId) (acc : PProv S → Act S → Bool) (steps : List (Int × Callback S))
+    (hp : ∀ tr ∈ (prun acc (P.plugged on chain) (PW.init (P.plugged on chain) id) steps).2, ∀ x ∈ tr, x.2 = true)
+    (hi : ∀ r ∈ (irun (P.plugged on chain) (IW.init (P.plugged on chain) id) steps).2, ∀ x ∈ r.transcript, x.2 = true)
+    (hret : ∀ r ∈ (irun (P.plugged on chain) (IW.init (P.plugged on chain) id) steps).2, r.ret ≠ none) :
+    (prun acc (P.plugged on chain) (PW.init (P.plugged on chain) id) steps).2 =
+      (irun (P.plugged on chain) (IW.init (P.plugged on chain) id) steps).2.map (·.transcript) :=
+  (C14_wrapper_equivalence_nothing_refused (P.plugged on chain) id acc steps hp hi hret).2
+
 /-! ### non-vacuity -/
 
 /-- a protocol that, on every callback, sets a timer, writes a tracked variable, cancels (refused
@@ -479,6 +552,18 @@ example : (irunMulti demo.toX (fun k => IW.init demo.toX (if k = 0 then 3 else 5
         (fun x => (x.1, x.2.ret.map (fun L => L.filter isTrack))) =
     [(0, some [⟨.trackVariable, .track "n" "0"⟩]), (1, some [⟨.trackVariable, .track "n" "0"⟩]),
      (1, some [⟨.trackVariable, .track "n" "1"⟩]), (0, some [⟨.trackVariable, .track "n" "1"⟩])] := by
+  decide
+
+/-- `demo` with two handlers plugged in from the second callback on (`on`: the instance has seen a
+    callback): on a timer the newer handler broadcasts "h1" and the older one answers INTERRUPT, so the
+    protocol's own method is not reached; `finish` cannot be interrupted -/
+def h0 : LStage Unit Nat := { next := fun s _ _ _ => s, acts := fun _ _ _ _ => [.req (.broadcast "h0")], stop := fun _ _ _ _ => true }
+def h1 : LStage Unit Nat := { next := fun s _ _ _ => s + 1, acts := fun _ _ _ _ => [.req (.broadcast "h1")], stop := fun _ _ _ _ => false }
+
+example : (irun (demo.toX.plugged (fun s => decide (s > 0)) ([h1, h0].map LStage.toStage))
+      (IW.init demo.toX 3) [(0, .initialize), (4, .timer "t"), (4, .finish)]).2.map
+        (fun r => r.ret.map (fun L => L.filterMap (fun c => match c.payload with | .req (.broadcast m) => some m | _ => none))) =
+    [some ["hi"], some ["h1", "h0"], some ["h1", "h0", "hi"]] := by
   decide
 
 end C14
